@@ -60,12 +60,13 @@ func (q *MultiOpQueryer) sendRequest(request *http.Request) ([]byte, error) {
 		return nil, err
 	}
 
+	defer resp.Body.Close()
+
 	// read the full body
 	body, err := ioutil.ReadAll(resp.Body)
 	if err != nil {
 		return nil, err
 	}
-	defer resp.Body.Close()
 
 	// check for HTTP errors
 	if resp.StatusCode < 200 || resp.StatusCode > 299 {
